@@ -9,10 +9,11 @@ values {x, y} is loaded into a fresh document that already holds
  * probe table P1 (one row per probe value: every domain value plus values below / between / above
    each class): find.lt/le/gt/ge/eq through `T.lookupRecords(<filter>order_by=...)` for order_by
    "s", "-s", the same with the filter g="x", and the legacy sort_by="s"  (25 columns);
- * probe table P2 (group probes {w, x, y, z} x value probes): find.* on order_by=("g", "s") with the
-   full pair and with the one-value prefix (10 columns).
+ * probe tables P2 (group probes {w, x, y, z} x value probes) and P3 (group probes): find.* on
+   order_by=("g", "s") with the full pair (P2) and with the one-value prefix (P3).
 
-Step 1 adds the rows (manualSort = row order); step 2 (tables of >= 2 rows) reverses manualSort
+Step 1 adds the rows (manualSort = row order; for <= 3 rows the probe formulas were calculated
+against the empty table before, on load); step 2 (tables of >= 2 rows) reverses manualSort
 with a BulkUpdateRecord in the same document, so ties must flip and the sorted lookups must follow.
 
 Oracle: the documented order re-implemented as a key (None first, then numbers, then other types
@@ -76,15 +77,18 @@ def base_snap():
     doc.apply([["AddTable", "P1", p1]])
     doc.apply([["BulkAddRecord", "P1", [None] * len(SPROBES), {"p": list(SPROBES)}]])
     p2 = [{"id": "pg", "type": "Text", "isFormula": False}, {"id": "p", "type": "Any", "isFormula": False}]
+    p3 = [{"id": "pg", "type": "Text", "isFormula": False}]
     for op in OPS:
       p2.append({"id": "%s_pair" % op, "type": "Any", "isFormula": True,
                  "formula": 'T.lookupRecords(order_by=("g", "s")).find.%s($pg, $p).id' % op})
-      p2.append({"id": "%s_prefix" % op, "type": "Any", "isFormula": True,
+      p3.append({"id": "%s_prefix" % op, "type": "Any", "isFormula": True,
                  "formula": 'T.lookupRecords(order_by=("g", "s")).find.%s($pg).id' % op})
     doc.apply([["AddTable", "P2", p2]])
     pairs = [(g, p) for g in GPROBES for p in SPROBES]
     doc.apply([["BulkAddRecord", "P2", [None] * len(pairs),
                 {"pg": [g for g, _ in pairs], "p": [p for _, p in pairs]}]])
+    doc.apply([["AddTable", "P3", p3]])
+    doc.apply([["BulkAddRecord", "P3", [None] * len(GPROBES), {"pg": list(GPROBES)}]])
     _SNAP.append(doc.snapshot())
   return _SNAP[0]
 
@@ -141,7 +145,7 @@ def scan(olist, spec, op, probe):
 
 def expected(rows):
   """{table: {col: [values per row]}} for all formula columns."""
-  exp = {'T': {}, 'P1': {}, 'P2': {}}
+  exp = {'T': {}, 'P1': {}, 'P2': {}, 'P3': {}}
   for suffix, _, _, grouped, spec in REC_SPECS:
     cols = {name: [] for name, _ in REC_FUNCS}
     for r in rows:
@@ -161,7 +165,7 @@ def expected(rows):
   pairs = [(g, p) for g in GPROBES for p in SPROBES]
   for op in OPS:
     exp['P2']['%s_pair' % op] = [scan(olist, GS_SPEC, op, (g, p)) for g, p in pairs]
-    exp['P2']['%s_prefix' % op] = [scan(olist, GS_SPEC, op, (g,)) for g, p in pairs]
+    exp['P3']['%s_prefix' % op] = [scan(olist, GS_SPEC, op, (g,)) for g in GPROBES]
   return exp
 
 
@@ -183,9 +187,8 @@ def compare(doc, pairs, stage):
     return [('C14/setup', "table T holds %r, expected %r" % (rows, pairs))]
   exp = expected(rows)
   fails = []
-  for tid in ('T', 'P1', 'P2'):
-    cells = rep[3] if tid == 'T' else doc.fetch(tid)[3]
-    probes = doc.fetch(tid)[3] if tid != 'T' else None
+  for tid in ('T', 'P1', 'P2', 'P3'):
+    cells = probes = rep[3] if tid == 'T' else doc.fetch(tid)[3]
     for col, want in exp[tid].items():
       got = list(cells[col])
       if got != want:
@@ -194,8 +197,10 @@ def compare(doc, pairs, stage):
           where = "row id %s" % rows[i]['id']
         elif tid == 'P1':
           where = "probe %r" % (probes['p'][i],)
-        else:
+        elif tid == 'P2':
           where = "probe (%r, %r)" % (probes['pg'][i], probes['p'][i])
+        else:
+          where = "probe (%r,)" % (probes['pg'][i],)
         formula = column_formula(tid, col)
         fails.append(('C14/%s%s' % (stage, key_of(col)),
                       "rows (id, manualSort, s, g) = %s: `%s` for %s gives %r, linear scan gives %r" % (
@@ -218,8 +223,11 @@ def column_formula(tid, col):
 
 def run_case(pairs):
   """pairs: list of [s, g].  Returns [(key, message)]."""
-  doc = H.Doc.load(base_snap())
   n = len(pairs)
+  # Tables of <= 3 rows: the probes are first calculated against the empty T (Calculate on load), so
+  # adding the rows must update them.  4-row tables (thorough tier, 90% of the cost): the first
+  # calculation happens together with the addition of the rows.
+  doc = H.Doc.load(base_snap(), calculate=(n <= 3))
   if n:
     doc.apply([["BulkAddRecord", "T", [None] * n, {"s": [p[0] for p in pairs], "g": [p[1] for p in pairs]}]])
   fails = compare(doc, pairs, '')
@@ -260,7 +268,7 @@ def worker(chunk):
     steps = 2 if len(pairs) >= 2 else 1
     E.extra['documents_states_checked'] = E.extra.get('documents_states_checked', 0) + steps
     cells = steps * (len(REC_SPECS) * len(REC_FUNCS) * len(pairs) + len(P1_SPECS) * len(OPS) * len(SPROBES) +
-                     2 * len(OPS) * len(GPROBES) * len(SPROBES))
+                     len(OPS) * len(GPROBES) * (len(SPROBES) + 1))
     E.extra['formula_cells_compared'] = E.extra.get('formula_cells_compared', 0) + cells
     for key, msg in fails:
       E.fail(key, msg, case={'rows': pairs})
@@ -275,7 +283,7 @@ def run(tier, report):
       '(same document); per state: PREVIOUS/NEXT/RANK asc/desc for every row under order_by "s", "-s", '
       '("g","s"), None and group_by="g" with "s"/"-s"; find.lt/le/gt/ge/eq for %d value probes under '
       'order_by "s", "-s", the same filtered by g="x", and sort_by="s"; find.* for %d (group, value) '
-      'probes and their one-value prefixes under order_by=("g","s"); non-trivial = >= 2 rows with a '
+      'probes and the 4 one-value (group) prefixes under order_by=("g","s"); non-trivial = >= 2 rows with a '
       'tie or mixed types among the sort values' % (maxrows, len(SPROBES), len(GPROBES) * len(SPROBES))))
   base_snap()
   cases = list(all_cases(tier))
